@@ -417,7 +417,11 @@ func runC16(c *harness.Case) {
 		}
 		time.Sleep(100 * time.Microsecond)
 	}
-	time.Sleep(2 * time.Millisecond) // the handler registers with the backend right after sending "created"
+	// the handler registers with the backend right after sending "created": wait for the subscription (hook counter)
+	for i := 0; i < 50000 && n.PointCount("afterSubscribe") == 0; i++ {
+		time.Sleep(100 * time.Microsecond)
+	}
+	time.Sleep(time.Millisecond)
 	nReq := 40 + r.Intn(110)
 	for i := 0; i < nReq; i++ {
 		key := keys[r.Intn(len(keys))]
